@@ -88,6 +88,7 @@ pub fn child_main(args: &[String]) -> i32 {
         Some("parse") => c14::child(args),
         Some("seeds") => c18::child(args),
         Some("tz") => c09::child(args),
+        Some("follow") => c10::child(args),
         _ => 2,
     }
 }
